@@ -43,6 +43,21 @@ def main(argv=None):
         prog = Program(a.repo)
         results, explanation, assumptions, extra = mod.run(prog, a.tier, seed)
         write = (not a.no_evidence) and a.replay is None
+        live = None
+        if a.tier == 'thorough' and a.replay is None and \
+                os.environ.get('VERIF_NO_LIVENESS') != '1':
+            from pmcv import liveness
+            live = liveness.run(prop, a.repo)
+            extra = dict(extra or {})
+            extra['liveness'] = {
+                'what': 'seeded variants of the analysed tree that this '
+                        'check must report (static re-analysis of a scratch '
+                        'copy with one patch of /verif/seeded applied)',
+                'variants': live,
+                'reported': sum(1 for v in live.values()
+                                if v.startswith('reported')),
+                'skipped': sum(1 for v in live.values()
+                               if v.startswith('skipped'))}
         rc, ev, new = report.finish(prop, a.tier, seed, results, t0,
                                     explanation, assumptions,
                                     write_evidence=write, extra_cov=extra,
@@ -58,10 +73,27 @@ def main(argv=None):
                 return 1
             print('REPLAY: construct no longer reported')
             return 0
-        if rc == 0 and a.tier == 'thorough' and hasattr(mod, 'selftest'):
-            st = mod.selftest(a.repo, seed)
-            if st:
-                print('ANALYSIS-ERROR self-test: ' + st)
+        undecided = (extra or {}).get('undecided_rules') or []
+        for u in undecided:
+            print('%s property=%s %s' % (u.split(' ', 1)[0], prop,
+                                         u.split(' ', 1)[1]))
+        if undecided and rc == 0:
+            print('%s: %d rule(s) undecided -- no verdict' % (
+                prop, len(undecided)))
+            return 2
+        if live is not None:
+            dead = sorted(k for k, v in live.items()
+                          if v.startswith('NOT REPORTED'))
+            print('LIVENESS %s: %d seeded variant(s) reported, %d skipped, '
+                  '%d not reported' % (
+                      prop, sum(1 for v in live.values()
+                                if v.startswith('reported')),
+                      sum(1 for v in live.values()
+                          if v.startswith('skipped')), len(dead)))
+            if rc == 0 and dead:
+                print('ANALYSIS-ERROR property=%s liveness: the check no '
+                      'longer reports the seeded variant(s) %s' % (
+                          prop, ', '.join(dead)))
                 return 2
         return rc
     except Inconclusive as e:
